@@ -131,11 +131,58 @@ fn close(a: f64, b: f64) -> bool {
     (a - b).abs() <= 1e-9 * (1.0 + a.abs().max(b.abs()))
 }
 
+/// single-value images (flags 2 / 6, double and float): value, weight and merge direction come back, and
+/// the library writes the same image again
+fn single_value_images(out: &mut Shards) {
+    out.next_run("td-single-images");
+    for (i, &v) in [1.5f64, -0.0, 1e30, -3.25, 0.1].iter().enumerate() {
+        for rev in [false, true] {
+            for float in [false, true] {
+                let k = [10u16, 100, 200][i % 3];
+                let mut img = vec![1u8, 1, 20];
+                img.extend_from_slice(&k.to_le_bytes());
+                img.push(2 | if rev { 4 } else { 0 });
+                img.extend_from_slice(&0u16.to_le_bytes());
+                let vv = if float { v as f32 as f64 } else { v };
+                if float {
+                    img.extend_from_slice(&(v as f32).to_le_bytes());
+                } else {
+                    img.extend_from_slice(&v.to_le_bytes());
+                }
+                let mut bad: Vec<Value> = vec![];
+                let r = catch(std::panic::AssertUnwindSafe(|| TDigestMut::deserialize(&img, float)));
+                let loaded = matches!(r, Ok(Ok(_)));
+                match r {
+                    Ok(Ok(mut td)) => {
+                        let back = td.serialize();
+                        let mut want = img.clone();
+                        if float {
+                            want.truncate(8);
+                            want.extend_from_slice(&vv.to_le_bytes()); // written back as a double
+                        }
+                        if back != want {
+                            bad.push(json!({"what":"re-serialized image","got":back,"want":want}));
+                        }
+                        if td.total_weight() != 1 || td.min_value() != Some(vv) || td.max_value() != Some(vv) || td.quantile(0.5).map(f64::to_bits) != Some(vv.to_bits()) {
+                            bad.push(json!({"what":"state","got":format!("{:?} {:?}", td.min_value(), td.max_value())}));
+                        }
+                    }
+                    Ok(Err(e)) => bad.push(json!({"what":"rejected","err":format!("{e:?}")})),
+                    Err(e) => bad.push(json!({"what":"panic","err":e})),
+                }
+                out.ev(json!({"op":"DLoad","variant":format!("single-{}-{}", if float { "float" } else { "double" }, if rev { "rev" } else { "fwd" }),
+                    "spec":{"min":vv.to_string(),"max":vv.to_string(),"cs":[]},"k":k,"loaded":loaded,"bad":bad,"nq":1}));
+            }
+        }
+    }
+}
+
 /// `vh td-replay --in digests.json --out prefix --shards N`: every digest of the specification's
 /// enumeration is loaded from an image and every grid answer compared with the exact rational
 pub fn replay(args: &Args) {
     let mut out = Shards::create(&args.str("out", "tdl"), args.u64("shards", 4) as usize);
     let text = std::fs::read_to_string(args.get("in").expect("--in")).expect("digests file");
+    single_value_images(&mut out);
     let mut n = 0u64;
     for (li, line) in text.lines().enumerate() {
         let d: Value = serde_json::from_str(line).expect("digest");
@@ -161,6 +208,10 @@ pub fn replay(args: &Args) {
                 let total: u64 = cs.iter().map(|c| c.1).sum();
                 if td.total_weight() != total || (total > 1 && (bmin != min || bmax != max || bcs != cs)) {
                     bad.push(json!({"what":"state","got":format!("{bmin} {bmax} {bcs:?}")}));
+                }
+                // the merge direction is part of the state (it decides how the next compression clusters)
+                if (back[5] & 4 != 0) != (li % 2 == 1) {
+                    bad.push(json!({"what":"reverse-merge flag","got":back[5]}));
                 }
                 for (i, v) in d["vs"].as_array().unwrap().iter().enumerate() {
                     let x = rat(v).unwrap();
@@ -358,7 +409,15 @@ fn chk(out: &mut Shards, id: usize, t: &mut Td, rng: &mut Rng) -> bool {
         rr.extend(rs.iter());
         let rr_r = ranks(&rr);
         // cdf / pmf consistency on sorted distinct split points
+        // inside, at both extremes exactly, and outside on both sides
         let mut sp: Vec<f64> = (1..8).map(|i| lerp(i as f64 / 8.0)).collect();
+        sp.push(min);
+        sp.push(max);
+        if (min - far).is_finite() && (max + far).is_finite() {
+            sp.push(min - far);
+            sp.push(max + far);
+        }
+        sp.retain(|v| !v.is_nan());
         sp.sort_by(|a, b| a.partial_cmp(b).unwrap());
         sp.dedup();
         let cdf = t.d.cdf(&sp).unwrap();
